@@ -25,7 +25,7 @@ cp $MD/patch.diff $OUT/patch.diff; cp $MD/demo_test.go $OUT/demo_test.go; cp $MD
 # run the check against /repo with the patch applied
 cd /repo && git apply $OUT/patch.diff || { echo "PATCH DOES NOT APPLY TO /repo"; exit 3; }
 t0=$(date +%s)
-res=$(cd /verif && timeout 1500 /verif/bin/vcheck run $P "$@" 2>&1 | grep -a "VIOLATION\|^C[0-9]* tier\|INCONCLUSIVE" | head -6)
+res=$(cd /verif && VERIF_EVIDENCE_DIR=/tmp/verif-seed-evidence VERIF_NO_TV=1 timeout 1500 /verif/bin/vcheck run $P "$@" 2>&1 | grep -a "VIOLATION\|^C[0-9]* tier\|INCONCLUSIVE" | head -6)
 rc=$?
 t1=$(date +%s)
 git -C /repo checkout -q -- .
